@@ -233,6 +233,58 @@ class LoopMixin:
             raise E.PathEnd()
         self.exec_block(node.orelse, frame)
 
+    def assume_clause(self, node, sframe, extra):
+        """assume a callee postcondition; conjuncts of the form `<obj>.<field> is <expr>` on a not yet materialised
+        field *bind* the field (identity of a havocked reference cannot be expressed as a formula)"""
+        run = self.run
+        if isinstance(node, ast.BoolOp) and isinstance(node.op, ast.And):
+            for v in node.values:
+                self.assume_clause(v, sframe, extra)
+            return
+        f = E.Frame(sframe.relpath, sframe.ci, dict(sframe.locals), None, "spec")
+        f.locals.update(extra)
+        if isinstance(node, ast.Call) and isinstance(node.func, ast.Name) and node.func.id == "implies":
+            self.pure += 1
+            try:
+                a = E.simp(self.truthy(self.eval(node.args[0], f)))
+            finally:
+                self.pure -= 1
+            if E.is_true(a):
+                return self.assume_clause(node.args[1], sframe, extra)
+            if E.is_false(a):
+                return
+        if isinstance(node, ast.Compare) and len(node.ops) == 1 and isinstance(node.ops[0], ast.Is) \
+                and isinstance(node.left, ast.Name) and node.left.id == "result" and isinstance(extra.get("result"), VRef) \
+                and not (isinstance(node.comparators[0], ast.Constant)):
+            # `result is <expr>`: the havocked return value IS that object
+            self.pure += 1
+            try:
+                rhs = self.eval(node.comparators[0], f)
+            finally:
+                self.pure -= 1
+            if isinstance(rhs, VRef):
+                extra["result"] = VRef(run.base_oid(rhs.oid), rhs.kind, rhs.cls)
+                return
+        if isinstance(node, ast.Compare) and len(node.ops) == 1 and isinstance(node.ops[0], ast.Is) \
+                and isinstance(node.left, ast.Attribute):
+            self.pure += 1
+            try:
+                base = self.eval(node.left.value, f)
+                if isinstance(base, VRef) and base.kind == "obj":
+                    rec = run.rec(base.oid)
+                    if rec.sym is not None and node.left.attr not in rec.fields:
+                        rhs = self.eval(node.comparators[0], f)
+                        rec.fields[node.left.attr] = rhs
+                        return
+            finally:
+                self.pure -= 1
+        self.pure += 1
+        try:
+            t = self.truthy(self.eval(node, f))
+        finally:
+            self.pure -= 1
+        run.assume(t)
+
     # ------------------------------------------------------------ calls by contract
     def callee_contract(self, ci, name):
         if self.contract is None:
@@ -284,9 +336,13 @@ class LoopMixin:
                 raise E.PyExc(exc, f"callee {qual}")
             rt = parse_type(cc.returns) if cc.returns else self.ann_type(fnode.returns, rel)
             result = self.fresh(rt, f"ret@{tag}")
+            run.contract_calls.append({"name": qual, "outcome": "return", "value": result})
             extra = {"result": result, "exc": NONE}
             for lbl, ex in list(cc.ensures.items()) + list(cc.always.items()):
-                run.assume(V.eval_bool(self, ex, sframe, extra))
+                self.assume_clause(V.parse_clause(ex), sframe, extra)
+            if extra["result"] is not result:
+                result = extra["result"]
+                run.contract_calls[-1]["value"] = result
             if cc.use_invariants:
                 rcls = run.rec(recv.oid).cls
                 for lbl, ex in V.class_clauses(self.reg.invariants, rcls):
